@@ -314,6 +314,58 @@ def rewrite_for_loops(lines, counts):
     return out
 
 
+_RETAIN = re.compile(r'^(\s*)(.+)\.retain\(\|(\w+)\| \{$')
+
+
+def rewrite_retain(lines, counts):
+    """T24: `X.retain(|s| { BODY; keep });` -> the in-order filter loop that `Vec::retain` is documented to be ("visits each
+    element exactly once in the original order", removes those for which the closure returns false, keeps the order of the rest):
+
+        let mut retain_i: usize = 0;
+        while retain_i < X.len() {
+            let retain_keep = { let s = &X[retain_i]; BODY; keep };       // the closure body, verbatim
+            if retain_keep { retain_i += 1; } else { X.remove(retain_i); }
+        }
+
+    The closure body is the code of /repo, unchanged; what is assumed is std's contract of `Vec::retain` (a closure that
+    captures `&mut` state is outside Verus).  The real function is cross-checked against the same contract by the bounded job."""
+    out = []
+    i = 0
+    n = len(lines)
+    while i < n:
+        txt, no = lines[i]
+        mo = _RETAIN.match(txt)
+        if not mo or txt.lstrip().startswith('//'):
+            out.append((txt, no))
+            i += 1
+            continue
+        ind, coll, var = mo.group(1), mo.group(2).strip(), mo.group(3)
+        j = i + 1
+        while j < n and lines[j][0].rstrip() != ind + '});':
+            j += 1
+        if j >= n:
+            out.append((txt, no))
+            i += 1
+            continue
+        counts.bump('T24_retain_loop')
+        out.append(('%slet mut retain_i: usize = 0;' % ind, no))
+        out.append(('%swhile retain_i < %s.len()' % (ind, coll), no))
+        out.append((ind + '{', no))
+        out.append(('%s    let retain_keep = {' % ind, no))
+        out.append(('%s        let %s = &%s[retain_i];' % (ind, var, coll), no))
+        for t, ln in lines[i + 1:j]:
+            out.append((('    ' + t) if t.strip() else t, ln))
+        out.append(('%s    };' % ind, lines[j][1]))
+        out.append(('%s    if retain_keep {' % ind, no))
+        out.append(('%s        retain_i += 1;' % ind, no))
+        out.append(('%s    } else {' % ind, no))
+        out.append(('%s        %s.remove(retain_i);' % (ind, coll), no))
+        out.append(('%s    }' % ind, no))
+        out.append((ind + '}', lines[j][1]))
+        i = j + 1
+    return out
+
+
 _WCAP = re.compile(r'^(\s*)let mut (\w+) = Vec::with_capacity\((.+)\);$')
 
 
@@ -398,6 +450,7 @@ def transform(text, counts, select=None):
     lines = rewrite_asserts(lines, counts)
     lines = rewrite_unchecked(lines, counts)
     lines = split_block_heads(lines, counts)
+    lines = rewrite_retain(lines, counts)
     lines = normalise_loop_break(lines, counts)
     lines = rewrite_for_loops(lines, counts)
     lines = name_capacity_args(lines, counts)
